@@ -573,7 +573,15 @@ def rule_language(ctx):
     C05.rule_q_default(R.Retag(ctx, "C05."))
 
 
+def rule_default_frame_cap(ctx):
+    """frames of the protocol's default maximum size are decoded (shared with C11.R3)"""
+    from ..engine import report as R
+    from . import C11
+    C11.rule_frame_cap_default(R.Retag(ctx, "C11."))
+
+
 def run(ctx):
+    rule_default_frame_cap(ctx)
     rule_language(ctx)
     rule_header_block_frames(ctx)
     rule_frames_returned(ctx)
